@@ -271,9 +271,11 @@ func NewModule() (*Module, error) {
 		w(l+"/types/stub.go", sb.String())
 	}
 	var sb strings.Builder
-	sb.WriteString("package m\n\nimport \"encoding/json\"\n\n")
+	// the user-supplied (un)marshalers count their calls, so that a run can tell whether and how
+	// often the generated code went through them
+	sb.WriteString("package m\n\nimport \"encoding/json\"\n\nvar Calls = map[string]int{}\n\n")
 	for k := 0; k < 6; k++ {
-		fmt.Fprintf(&sb, "type M%d string\n\nfunc Marshal%d(v *M%d) ([]byte, error) { return json.Marshal((*string)(v)) }\nfunc Unmarshal%d(b []byte, v *M%d) error { return json.Unmarshal(b, (*string)(v)) }\n\n", k, k, k, k, k)
+		fmt.Fprintf(&sb, "type M%d string\n\nfunc Marshal%d(v *M%d) ([]byte, error) { Calls[\"Marshal%d\"]++; return json.Marshal((*string)(v)) }\nfunc Unmarshal%d(b []byte, v *M%d) error { Calls[\"Unmarshal%d\"]++; return json.Unmarshal(b, (*string)(v)) }\n\n", k, k, k, k, k, k, k)
 	}
 	w("m/stub.go", sb.String())
 	w("opt/stub.go", "package opt\n\nimport \"encoding/json\"\n\ntype Option[T any] struct{ V *T }\n\nfunc (o Option[T]) MarshalJSON() ([]byte, error) { return json.Marshal(o.V) }\nfunc (o *Option[T]) UnmarshalJSON(b []byte) error { return json.Unmarshal(b, &o.V) }\n")
